@@ -440,6 +440,46 @@ func c06Checkpoint(r *core.Run, s *sim.Sim, env *menv.Env, world *lnmodel.World,
 			}
 		}
 	}
+	// refusals that come late in the processing: genuine, correctly signed SIG_ALL inputs of
+	// sufficient amount pass every proof check of a melt and are refused only for their flag
+	{
+		lk := newLockKeys(rng)
+		for _, kind := range []string{"P2PK", "HTLC"} {
+			c := lockCfg{Kind: kind, Data: pubHex(lk.Lock), Sigflag: "SIG_ALL", Nonce: client.RandHex(rng, 16)}
+			var pre *string
+			if kind == "HTLC" {
+				c.Data, c.Pubkeys, c.NSigs, pre = lk.Hash, []string{pubHex(lk.Lock)}, 1, &lk.Preimage
+			}
+			secret := c.Secret()
+			ps, err := env.FundOutputs([]client.Output{client.NewOutput(rng, act.Id, 8, secret)})
+			mq := s.NewMeltQuote(3000)
+			if err != nil || mq == nil {
+				r.Inconclusive("late-refusal setup")
+				continue
+			}
+			ps[0].Witness = buildWitness([]byte(secret), []sigSpec{{key: lk.Lock}}, pre, false)
+			csig := fmt.Sprintf("%s/cp%d/late-refusal/melt-SIG_ALL-%s", sig, cp, kind)
+			before, e1 := env.Snapshot()
+			_, merr := env.Melt(mq.Id, ps)
+			after, e2 := env.Snapshot()
+			r.Eval("api/late-refusal/melt-SIG_ALL-"+kind+"/"+fmt.Sprint(merr != nil), true)
+			if menv.IsPanic(merr) {
+				r.Violate("panic:api:Melt:SIG_ALL-"+kind, merr.Error(), csig, nil)
+			}
+			if merr == nil || e1 != nil || e2 != nil {
+				continue // accepting it is C12's business
+			}
+			if d := c06Norm(before, world).Diff(c06Norm(after, world)); d != "" {
+				r.Violate("state-changed-by-refused-call:Melt:valid-SIG_ALL-inputs:"+diffTables(d), fmt.Sprintf("MeltTokens refused correctly signed SIG_ALL inputs (%v) but changed the stored state: %s", merr, truncStr(d, 300)), csig, nil)
+			}
+			if st, err := env.CheckState([]string{refcrypto.YHex(secret)}); err == nil && len(st) == 1 && st[0].State.String() != "UNSPENT" {
+				r.Violate("state-changed-by-refused-call:Melt:valid-SIG_ALL-inputs:proof-"+st[0].State.String(), "after the refused melt the inputs are reported "+st[0].State.String(), csig, nil)
+			}
+			if q, err := env.MeltQuoteState(mq.Id); err == nil && q.State.String() != "UNPAID" {
+				r.Violate("state-changed-by-refused-call:Melt:valid-SIG_ALL-inputs:quote-"+q.State.String(), "after the refused melt the quote is "+q.State.String(), csig, nil)
+			}
+		}
+	}
 	// GET endpoints with garbage path parameters
 	for _, p := range []string{"/v1/mint/quote/bolt11/", "/v1/mint/quote/bolt11/%00", "/v1/mint/quote/bolt11/" + strings.Repeat("a", 70000), "/v1/melt/quote/bolt11/nope", "/v1/keys/zz", "/v1/keys/00", "/v1/keys/" + strings.Repeat("0", 16),
 		"/v1/mint/quote/bolt12/x", "/v1/melt/quote/bolt12/x", "/v1/info", "/v1/keysets", "/v1/keys", "/v1/mint/quote/bolt11/'%20OR%201=1--"} {
